@@ -77,7 +77,8 @@ def _replace_known_charref(m: Match[str]) -> str:
     return str(_replace_charref(m))
 
 
-_striptags_re = re.compile(r"(<!--.*?-->|<[^>]*>)")
+# comments may span lines; a quoted attribute value may contain ">"
+_striptags_re = re.compile(r"""(<!--[\s\S]*?-->|<(?:"[^"]*"|'[^']*'|[^>"'])*>)""")
 
 
 def striptags(s: str) -> str:
